@@ -8,7 +8,10 @@ VERUS = os.environ.get("VERIF_VERUS", "verus")
 
 
 def run_verus(path, rlimit=None, seed=None, timeout=900, extra=()):
-    cmd = [VERUS, os.path.basename(path), "--output-json", "--time", "--multiple-errors", "12",
+    me = "12"
+    if "--multiple-errors" in extra:
+        i = list(extra).index("--multiple-errors"); me = extra[i + 1]; extra = tuple(list(extra)[:i] + list(extra)[i + 2:])
+    cmd = [VERUS, os.path.basename(path), "--output-json", "--time", "--multiple-errors", me,
            "--error-format=json", "--triggers-mode", "silent"]
     if rlimit:
         cmd += ["--rlimit", str(rlimit)]
@@ -100,6 +103,11 @@ def classify(unit, js, diags, rc):
         if "resource limit" in low or "rlimit" in low or "timed out" in low or "solver" in low and "unknown" in low:
             prim = [s for s in spans if s.get("is_primary")] or spans
             fid0 = unit.fn_at(prim[0]["line_start"]) if prim else None
+            if fid0 and "__F_" in fid0:
+                # a finding variant ran out of resources: it did not verify, which is what a listed
+                # finding does anyway; recorded, judged by the driver
+                res.setdefault("rlimit_findings", []).append(fid0)
+                continue
             if fid0 and fid0.endswith("__canary"):
                 # `false` was not derived within the resource limit: the canary is rejected
                 res["failures"].append({"fid": fid0, "label": "canary", "message": msg, "detail": "rlimit",
